@@ -164,7 +164,25 @@ def plan_C02(ctx):
 def plan_C04(ctx):
     def extra(ctx, r):
         # any positive durations (ratios up to 1e6): the energy is a closed form of the published coefficients
-        return spline_build_execs(ctx, r, 1 if ctx.quick() else 6, tdom="any", with_knots=False, pair=False)
+        ex = spline_build_execs(ctx, r, 1 if ctx.quick() else 6, tdom="any", with_knots=False, pair=False)
+        # the energy of an object that is re-built (same and different segment counts, other durations / waypoints / boundary states)
+        # after its energy was queried: always the integral of the trajectory it publishes NOW
+        for rep in range(1 if ctx.quick() else 8):
+            for order in gen.ORDERS:
+                for dim in (1, 2, 4):
+                    for n in (1, 2, 3, 5):
+                        cmds = [{"op": "reset"}]
+                        seq = [n, n, max(1, n - 1), n + 1, n]
+                        for q, nn in enumerate(seq):
+                            pr = r.problem(order, dim, nn, tdom=r.choice(["W", "any"]))
+                            cmds.append(gen.build_cmd(1, pr, "ctor_durs" if q == 0 else r.choice(["upd_durs", "upd_pts"]), 6))
+                            cmds.append({"op": "energy", "obj": 1})
+                            if q == 2:
+                                cmds.append({"op": "copy", "dst": 2, "src": 1})
+                            if q >= 3:
+                                cmds.append({"op": "energy", "obj": 2})
+                        ex.append((len(cmds) * dim * n, cmds))
+        return ex
     return plan_spline_build(ctx, {"C04"}, {}, 1, 6, extra_execs=extra,
                              rule="every order x dimension x N; durations in W and arbitrary positive durations (ratio up to 1e6); "
                                   "getEnergy() against the exact integral of the squared s-th derivative of the published polynomials")
@@ -750,7 +768,7 @@ def pp_structural_execs(r, quick):
     return execs
 
 
-PP_NC = {1: 4, 2: 8, 3: 10}          # abstract coefficient counts (model StaticLimit = 2) -> concrete (limit 8)
+PP_NC = {1: 4, 2: 8, 3: 10, 4: 12}   # abstract coefficient counts (model StaticLimit = 2) -> concrete (limit 8); TWO counts above the limit
 PP_FIXED = {0: -1, 3: 12, 2: 8}      # abstract order parameter -> concrete ORDER (2 -> 8: ten coefficients are rejected)
 
 
@@ -823,13 +841,34 @@ def pp_lifecycle_execs(ctx, r, nsample):
     from vcheck import tlc_generate
     execs = []
     for fixed in (0, 3, 2):
-        scripts = tlc_generate(ctx, "MCPPolyObj", mcppoly_cfg(fixed, 3, True, ncs="{1, 3}"), "ppolyobj_f%d" % fixed, workers=1)   # histories of up to 3 calls
+        scripts = tlc_generate(ctx, "MCPPolyObj", mcppoly_cfg(fixed, 3, True, ncs="{1, 3, 4}"), "ppolyobj_f%d" % fixed, workers=1, timeout=900)   # histories of up to 4 calls
+        def pp_risk(h):
+            """signature of how a history exposes the two lazy caches: what was done to an object (evaluated? derivative taken?)
+            between its last (re)initialisation and the next one, and how the coefficient count changed"""
+            st = {}
+            sig = ""
+            for a in h:
+                if a["op"] in ("ctor", "update"):
+                    o = a["obj"]
+                    if a["op"] == "update" and o in st and a["kind"] == "ok" and st[o]["ok"]:
+                        p0 = st[o]
+                        sig = sig or "upd:ev%d:dv%d:nc%d-%d" % (p0["ev"], p0["dv"], p0["nc"], a["nc"])
+                    if a["op"] == "ctor" or o in st:
+                        st[o] = {"ev": 0, "dv": 0, "nc": a["nc"], "ok": a["kind"] == "ok"}
+                elif a["op"] == "eval" and a["obj"] in st:
+                    st[a["obj"]]["ev"] = 1
+                elif a["op"] == "derivative" and a["src"] in st:
+                    st[a["src"]]["dv"] = 1
+                    st[a["dst"]] = {"ev": 0, "dv": 0, "nc": max(1, st[a["src"]]["nc"] - a["k"]), "ok": st[a["src"]]["ok"]}
+                elif a["op"] in ("copy", "assign") and a["src"] in st:
+                    st[a["dst"]] = dict(st[a["src"]])
+            return sig
         groups = {}
         for h in scripts:
             last = h[-1]
-            groups.setdefault((last["op"], last.get("kind", ""), len(h)), []).append(h)
+            groups.setdefault((last["op"], last.get("kind", ""), len(h), pp_risk(h)), []).append(h)
         per = max(1, nsample // max(1, len(groups)))
-        for g in sorted(groups):
+        for g in sorted(groups, key=str):
             hs = groups[g]
             r.shuffle(hs)
             for h in hs[:per]:
@@ -856,7 +895,7 @@ def pp_finish(ctx, batches, rule, props):
     exe = vbuild.ppoly_replay()
     ctx.family, ctx.tracespec, ctx.env_flags = "ppoly", "TracePPoly", {}
     ctx.samples = [b[1:4] for b in batches[:2]]
-    replay_and_validate(ctx, exe, batches, "TracePPoly", {})
+    replay_and_validate(ctx, exe, batches, "TracePPoly", {}, crash_prop=ctx.prop)       # a crash of the library on a valid script is a violation
     return finish(ctx, "model_checking", rule, TRUSTED,
                   ["breakpoints strictly increasing and finite; evaluation tolerance 64 ulp-equivalents of sum_k |c_k dt^k| (DESIGN s4)",
                    "bit identity only between observations of one binary"], props_judged=props)
@@ -910,7 +949,7 @@ def pp_finish_partial(ctx, batches):
     exe = vbuild.ppoly_replay()
     ctx.family, ctx.tracespec, ctx.env_flags = "ppoly", "TracePPoly", {}
     ctx.samples = [b[1:4] for b in batches[:2]]
-    replay_and_validate(ctx, exe, batches, "TracePPoly", {})
+    replay_and_validate(ctx, exe, batches, "TracePPoly", {}, crash_prop=ctx.prop)
 
 
 # ---------------------------------------------------------------------- C20: sampling, length, factories
@@ -1530,7 +1569,7 @@ def plan_C16(ctx):
     r = gen.Rng(ctx.seed * 1000003 + 16)
     pexecs = c16_ppoly_execs(r, ctx.quick()) + pp_lifecycle_execs(ctx, r, 100 if ctx.quick() else 2000)
     ctx.family, ctx.tracespec, ctx.env_flags = "ppoly", "TracePPoly", {}
-    replay_and_validate(ctx, vbuild.ppoly_replay(), balanced(pexecs, 16 if ctx.quick() else 48), "TracePPoly", {}, label="p")
+    replay_and_validate(ctx, vbuild.ppoly_replay(), balanced(pexecs, 16 if ctx.quick() else 48), "TracePPoly", {}, label="p", crash_prop="C16")
     batches = balanced(c16_execs(r, ctx.quick()), 32 if ctx.quick() else 96)
     return opt_finish(ctx, batches, {"VJ_EXACT": "0"},
                       "optimizer: for every order x N 1..3 x dimension 1..3, every single placement of NaN / +Inf / -Inf in the start time, each "
